@@ -75,7 +75,7 @@ vars == <<node, counter, pst, pre, psn, ninc, lockh, dwq, dwpc, dwm, pc, ip, tl,
 
 \* ---------------------------------------------------------------- helpers
 NoNode == [reg |-> FALSE, pid |-> NoPid, desc |-> {}, wers |-> {}, wees |-> {}]
-NoFlight == [pc |-> "none", pid |-> NoPid, waiters |-> {}, child |-> FALSE, alive |-> {}]
+NoFlight == [pc |-> "none", pid |-> NoPid, waiters |-> {}, child |-> FALSE, alive |-> {}, leader |-> "", cancelled |-> FALSE]
 ByName(S, nm) == {x \in S : x[1] = nm}
 Put(S, p) == (S \ ByName(S, p[1])) \cup {p}            \* the maps are keyed by id
 Del(S, nm) == S \ ByName(S, nm)
@@ -147,7 +147,7 @@ IV == [node |-> InitNode, counter |-> Cardinality(Init),
        ninc |-> [n \in Names |-> IF n \in Init THEN 1 ELSE 0],
        lockh |-> [p \in Pids |-> NoS],
        pc |-> [t \in Threads |-> IF Len(Prog[t]) = 0 THEN "done" ELSE "call"], ip |-> [t \in Threads |-> 1],
-       tl |-> [t \in Threads |-> [did |-> FALSE, was |-> FALSE]],
+       tl |-> [t \in Threads |-> [did |-> FALSE, was |-> FALSE, re |-> FALSE]],
        spc |-> [s \in Stoppers |-> "idle"], sp |-> [s \in Stoppers |-> NoPid], slist |-> [s \in Stoppers |-> <<>>],
        sbr |-> [s \in Stoppers |-> {}], bpar |-> [s \in Stoppers |-> NoPid],
        fl |-> [n \in Names |-> NoFlight],
@@ -188,7 +188,7 @@ SpSf(t) ==
   /\ LET o == CurOp(t) IN
      /\ fl' = [fl EXCEPT ![o.n] = IF @.pc = "none"
                                   THEN [pc |-> "start", pid |-> NoPid, waiters |-> {t}, child |-> (o.op = "spawnchild"),
-                                        alive |-> {p \in TestPids : p[1] = o.n /\ pst[p] = "running"}]
+                                        alive |-> {p \in TestPids : p[1] = o.n /\ pst[p] = "running"}, leader |-> t, cancelled |-> FALSE]
                                   ELSE [@ EXCEPT !.waiters = @ \cup {t}]]
      /\ Goto(t, "wait")
   /\ UNCHANGED <<treev, lifev, dwv, tl, stv, sysst, histv>>
@@ -216,15 +216,38 @@ FlLookup(n) ==
           /\ ninc' = [ninc EXCEPT ![n] = @ + 1] /\ UNCHANGED thv
   /\ UNCHANGED <<treev, pst, pre, psn, lockh, dwv, stv, sysst, histv>>
 
+\* The context of the caller that leads the flight ("spawnx": Spawn with a cancellable context) is cancelled while its
+\* fn is parked before PreStart: that caller returns ctx.Err() at once, the flight goes on under the dead context.
+SpCancel(t) ==
+  /\ pc[t] = "wait" /\ CurOp(t).op = "spawnx" /\ last' = <<"SpCancel", t>>
+  /\ LET n == CurOp(t).n IN
+     /\ fl[n].pc = "prestart" /\ fl[n].leader = t /\ ~fl[n].cancelled
+     /\ fl' = [fl EXCEPT ![n].cancelled = TRUE, ![n].waiters = @ \ {t}]
+  /\ Done(t)
+  /\ UNCHANGED <<treev, lifev, dwv, tl, stv, sysst, histv>>
+
+\* fn failed with the leader's context.Canceled: every waiter whose own context is live goes back to DoChan once
+\* (runSpawnActivation's retry), so the re-runs are serialized by the single flight again
+CompleteCancelled(n) ==
+  /\ fl' = [fl EXCEPT ![n] = NoFlight]
+  /\ pc' = [t \in Threads |-> IF t \in fl[n].waiters THEN (IF tl[t].re THEN (IF ip[t] + 1 > Len(Prog[t]) THEN "done" ELSE "call") ELSE "sf") ELSE pc[t]]
+  /\ ip' = [t \in Threads |-> IF t \in fl[n].waiters /\ tl[t].re THEN ip[t] + 1 ELSE ip[t]]
+  /\ tl' = [t \in Threads |-> IF t \in fl[n].waiters THEN [tl[t] EXCEPT !.re = TRUE] ELSE tl[t]]
+
 \* PreStart runs (init): the new PID is running (and tell-able) but not yet in the tree; PostStart is queued;
-\* attachAndPublish counts the actor, up to tree.addNode
+\* attachAndPublish counts the actor, up to tree.addNode.  Under a cancelled context PreStart fails: no actor.
 FlPreStart(n) ==
   /\ fl[n].pc = "prestart" /\ last' = <<"FlPreStart", n>>
   /\ LET p == fl[n].pid IN
-     /\ pst' = [pst EXCEPT ![p] = "running"] /\ pre' = [pre EXCEPT ![p] = @ + 1]
-     /\ counter' = counter + 1
-     /\ fl' = [fl EXCEPT ![n].pc = "attach", ![n].alive = @ \cup {p}]
-  /\ UNCHANGED <<node, psn, ninc, lockh, dwv, thv, stv, sysst, histv>>
+     IF fl[n].cancelled
+     THEN /\ ninc' = [ninc EXCEPT ![n] = @ - 1]          \* the PID object never came to life
+          /\ CompleteCancelled(n)
+          /\ UNCHANGED <<counter, pst, pre>>
+     ELSE /\ pst' = [pst EXCEPT ![p] = "running"] /\ pre' = [pre EXCEPT ![p] = @ + 1]
+          /\ counter' = counter + 1
+          /\ fl' = [fl EXCEPT ![n].pc = "attach", ![n].alive = @ \cup {p}]
+          /\ UNCHANGED <<ninc, thv>>
+  /\ UNCHANGED <<node, psn, lockh, dwv, stv, sysst, histv>>
 
 \* tree.addNode and the duplicate branch of attachAndPublish
 FailSpawn(n, p) ==     \* repaired designs only: the spawn returns an error and the new actor is stopped again
@@ -451,7 +474,7 @@ Started(t) == IF After[t] = "" THEN TRUE ELSE pre[<<After[t], 1>>] >= 1
 OpCall(t) ==
   /\ pc[t] = "call" /\ Started(t) /\ last' = <<"OpCall", t>>
   /\ LET o == CurOp(t) IN
-     CASE o.op \in {"spawn", "spawnfn"} ->
+     CASE o.op \in {"spawn", "spawnfn", "spawnx"} ->
             /\ Goto(t, "sf") /\ UNCHANGED <<treev, lifev, dwv, tl, stv, fl, sysst, histv>>
        [] o.op = "spawnchild" ->
             \* spawnChildLocal: the parent must be running; a running child of that name is returned (tree.node)
@@ -470,7 +493,7 @@ OpCall(t) ==
        [] o.op = "restart" ->
             \* Restart: snapshot of the subtree and the parent (tree.descendants / tree.parent / tree.node), then
             \* Shutdown when the actor is running
-            /\ tl' = [tl EXCEPT ![t] = [did |-> FALSE, was |-> node[o.n].reg]]
+            /\ tl' = [tl EXCEPT ![t].did = FALSE, ![t].was = node[o.n].reg]
             /\ IF Has("RestartRace") THEN UNCHANGED lockh
                ELSE \* repaired: a restart holds its parent's stopLocker, and needs a live actor and parent
                     /\ lockh[ParPid(o.n)] = NoS /\ lockh[<<o.n, 1>>] = NoS
@@ -571,7 +594,7 @@ SsRest(t) ==
   /\ UNCHANGED <<counter, lifev, dwv, tl, stv, fl, dlv, terms, owed, wit>>
 
 Next ==
-  \/ \E t \in Threads : OpCall(t) \/ SpSf(t) \/ KLookup(t) \/ AoDo(t) \/ WDo(t) \/ UwDo(t)
+  \/ \E t \in Threads : OpCall(t) \/ SpSf(t) \/ SpCancel(t) \/ KLookup(t) \/ AoDo(t) \/ WDo(t) \/ UwDo(t)
                         \/ RsWait(t) \/ RsInit(t) \/ RsPre(t) \/ RsAttach(t) \/ RsAddW(t) \/ SsRest(t)
   \/ \E n \in Names : FlStart(n) \/ FlLookup(n) \/ FlPreStart(n) \/ FlAttach(n) \/ FlAddW(n)
   \/ \E s \in Stoppers : StLock(s) \/ StUnwee(s) \/ BrUnw(s) \/ BrRemDesc(s) \/ StJoin(s) \/ StPsEnter(s) \/ StPsExit(s)
